@@ -165,7 +165,7 @@ func TestW1Random(t *testing.T) {
 }
 
 func runW1Scenario(t *testing.T, ops *opsWriter, rng *rand.Rand, steps int) {
-	synctest.Test(t, func(t *testing.T) {
+	bubble(t, func(t *testing.T) {
 		cfg := w1Cfg{clientDisable: rng.Intn(10) == 0, serverDisable: rng.Intn(10) == 0}
 		w := startW1(t, ops, cfg)
 		defer func() {
